@@ -216,6 +216,7 @@ func ensureBuild(want []string) (*buildInfo, error) {
 		return nil, err
 	}
 	defer os.RemoveAll(scratch)
+	cleanups = append(cleanups, func() { os.RemoveAll(scratch) })
 	inst := filepath.Join(scratch, "inst")
 	plain := filepath.Join(scratch, "plain")
 	skip := func(rel string) bool { return rel == ".git" || strings.HasPrefix(rel, ".git/") }
